@@ -14,6 +14,34 @@ CHECKS = {
         'Trusts the StepLoop (FIFO execution of asyncio ready handles, external requests injected between two callbacks) and the public observers (state, has_terminated, ENTERED_STATE callbacks). Raising lifecycle hooks are excluded (C03).',
         'DESIGN.md section 3 C01',
     ),
+    'C02': (
+        'exploration',
+        'property-based testing: generated/enumerated (program, schedule, listener plan) cases on a harness-owned event loop; agreement matrix over all outcome views plus a per-callback future/terminated invariant',
+        'After every single event-loop callback the future-done => terminated invariant is checked; at the end result(), successful(), is_successful, killed(), killed_msg(), exception(), future(), listener notifications, cleanups, closedness and done-ness of the step_until_terminated() task are compared with each other and with what the program returned/raised and which kill texts were issued. Exhaustive for K<=2 (quick) / K<=3 (thorough) requests on 7 catalogue programs plus listener-issued calls; Hypothesis-generated programs beyond.',
+        'Trusts the StepLoop (FIFO execution of asyncio ready handles, external requests injected between two callbacks; OS-thread races out of scope) and the public observers. Lifecycle hooks do not raise (C03).',
+        'DESIGN.md section 3 C02',
+    ),
+    'C04': (
+        'exploration',
+        'property-based testing: small-scope exhaustive enumeration + Hypothesis over (program, schedule of pause/play/kill/resume/future-cancel, self-directed calls, listener-issued calls); tick-agnostic trace predicates and a probing kill from every live end configuration',
+        'Every kill issued on a live process must not raise, must end the process KILLED (EXCEPTED only with an exception the program itself raised), its return value/future must resolve True exactly when KILLED, the text must be recorded, future().cancel() must behave like kill(), and from every live end configuration one more kill() must terminate the process. Exhaustive over the 5-request alphabet for K<=2 (quick) / K<=3 (thorough) at all tick placements on 6 catalogue programs, all in-step call sequences of length <=2/3, and listener-issued calls at 4 notifications.',
+        'Trusts the StepLoop (FIFO execution of asyncio ready handles, external requests injected between two callbacks; OS-thread races out of scope) and the public observers. Lifecycle hooks do not raise (C03).',
+        'DESIGN.md section 3 C04',
+    ),
+    'C05': (
+        'exploration',
+        'property-based testing: metamorphic twin-run oracle (run with pause/play/resume requests vs the uninterrupted run with the same logical wake-ups), small-scope exhaustive + Hypothesis',
+        'The executed step sequence with arguments, outputs, final state, result and final status must equal those of the twin run; no step entry or resumption may observe paused=True; pause()/play() never raise; play() leaves the process un-paused and it stays so until the next pause request; a pause that is not withdrawn takes effect before any further step; the status present before a pause is restored by the play that ends it. Exhaustive for K<=2 (quick) / K<=3 and K=4 on waits (thorough).',
+        'Trusts the StepLoop (FIFO execution of asyncio ready handles, external requests injected between two callbacks; OS-thread races out of scope) and the public observers. Lifecycle hooks do not raise (C03).' + ' Steps are deterministic functions of their arguments (generated programs guarantee it).',
+        'DESIGN.md section 3 C05',
+    ),
+    'C06': (
+        'exploration',
+        'property-based testing: exhaustive enumeration of all orders and tick gaps of wake-up events versus pause/play requests, plus Hypothesis; liveness checked as quiescence; twin-run reference for exactly-once delivery',
+        'After all enabling events were delivered, the process was played and the loop is empty, the process must not be WAITING; the continuation must have run exactly once with the first resume value (compared with the twin run); no exception may reach the loop handler. The completion phase never re-delivers a wake-up, so a lost one cannot be masked.',
+        'Trusts the StepLoop (FIFO execution of asyncio ready handles, external requests injected between two callbacks; OS-thread races out of scope) and the public observers. Lifecycle hooks do not raise (C03).',
+        'DESIGN.md section 3 C06',
+    ),
 }
 
 PENDING = {f'C{n:02d}': 'check not built yet in this round (see DESIGN.md section 9 for the build order)' for n in range(1, 21)}
